@@ -86,7 +86,7 @@ func (ch *ConnectionHandler) acceptStream() {
 			streams.TryClose(ch.session)
 			return
 		}
-		stream = streams.NewNamedConnection(stream, stream.RemoteAddr().String())
+		stream = streams.NewNamedConnection(streams.NewMuxStreamConnection(stream), stream.RemoteAddr().String())
 		log.Debugf("[Server] New logical connection accepted: %v", stream)
 
 		if err = ch.multiplexToUpstream(stream); err != nil {
